@@ -38,7 +38,7 @@ def gen_tree(r, depth, ctr, pfail=0.35):
     n = Node()
     ctr[0] += 1
     n.sid = ctr[0]
-    n.kind = 'leaf' if depth == 0 else r.choice(['leaf', 'nest', 'chain', 'alt', 'or', 'switch', 'chain', 'nest', 'guard'])
+    n.kind = 'leaf' if depth == 0 else r.choice(['leaf', 'nest', 'chain', 'alt', 'or', 'switch', 'chain', 'nest', 'guard', 'altd'])
     n.kids, n.vals, n.ok = [], [], True
     if n.kind == 'leaf':
         x = r.random()
@@ -80,7 +80,7 @@ def ir_coq(ir):
         return '(Switch %s %s)' % (cnat(ir[1]), clist('(%s, %s)' % (ir_coq(a), ir_coq(b)) for a, b in ir[2]))
     if k == 'guard':
         return '(Guard %s %s %s)' % (cnat(ir[1]), cbool(ir[2]), ir_coq(ir[3]))
-    name = {'nest': 'Nest', 'chain': 'Chain', 'alt': 'Alt', 'or': 'OrS'}[k]
+    name = {'nest': 'Nest', 'chain': 'Chain', 'alt': 'Alt', 'or': 'OrS', 'altd': 'AltD'}[k]
     return '(%s %s %s)' % (name, cnat(ir[1]), clist(ir_coq(x) for x in ir[2]))
 
 
@@ -108,6 +108,9 @@ def realise(ir, reg):
             sp = tuple(subs)
         elif k == 'alt':
             sp = glom.Coalesce(*subs, skip=SKIPPED)
+        elif k == 'altd':
+            # recovers: when every alternative failed or was skipped, the factory's value is the result
+            sp = glom.Coalesce(*subs, skip=SKIPPED, default_factory=mk_default(ir[1], reg))
         else:
             sp = glom.Or(*subs)
     reg['by_id'][id(sp)] = ir[1]
@@ -122,6 +125,15 @@ def _accept(x):
 
 def _refuse(x):
     return False
+
+
+def mk_default(sid, reg):
+    def factory():
+        o = {'dflt': sid}
+        reg['made'][id(o)] = 3000 + sid
+        reg['keep'].append(o)
+        return o
+    return factory
 
 
 def mk_copy(sid, reg):
@@ -149,7 +161,7 @@ def depth_of(ir):
 def has_branch(ir):
     if ir[0] in ('leaf', 'skip'):
         return False
-    if ir[0] in ('alt', 'or', 'switch'):
+    if ir[0] in ('alt', 'or', 'switch', 'altd'):
         return True
     if ir[0] == 'guard':
         return has_branch(ir[3])
@@ -496,6 +508,11 @@ def corpus():
         {'kind': 'trace', 'tree': ['alt', 1, [['guard', 2, False, ['leaf', 3, True]], ['chain', 4, [['skip', 5]]]]]},
         {'kind': 'trace', 'tree': ['chain', 1, [['leaf', 2, True], ['alt', 3, [['guard', 4, False, ['nest', 5, [['leaf', 6, True]]]], ['nest', 7, [['leaf', 8, True]]], ['skip', 9]]]]]},
         {'kind': 'trace', 'tree': ['guard', 1, True, ['or', 2, [['guard', 3, False, ['leaf', 4, True]], ['chain', 5, [['leaf', 6, True], ['leaf', 7, False]]]]]]},
+        # F33: a Coalesce that recovered through its default is a finished step, not part of the failure
+        {'kind': 'trace', 'tree': ['chain', 1, [['altd', 2, [['leaf', 3, False], ['leaf', 4, False]]], ['leaf', 5, False]]]},
+        {'kind': 'trace', 'tree': ['guard', 1, False, ['altd', 2, [['leaf', 3, False]]]]},
+        {'kind': 'trace', 'tree': ['alt', 1, [['leaf', 2, False], ['chain', 3, [['altd', 4, [['leaf', 5, False]]], ['skip', 6]]]]]},
+        {'kind': 'trace', 'tree': ['nest', 1, [['altd', 2, [['chain', 3, [['leaf', 4, True], ['leaf', 5, False]]], ['skip', 6]]], ['guard', 7, False, ['altd', 8, [['skip', 9]]]]]]},
     ]
     out += [{'kind': 'message', 'i': i} for i in range(N_MESSAGE)]
     return out
